@@ -256,7 +256,7 @@ func DerivePanDevice(t *tape.Tape, b *PVsys) (*PVsys, []string) {
 		}
 	}
 	for n := t.Next(7); n > 0; n-- {
-		switch t.Next(15) {
+		switch t.Next(16) {
 		case 0: // rule missing on device
 			if len(a.Rules) > 0 {
 				j := t.Next(len(a.Rules))
@@ -410,6 +410,15 @@ func DerivePanDevice(t *tape.Tape, b *PVsys) (*PVsys, []string) {
 				}
 			}
 			ops = append(ops, "rule names with suffix on device")
+			if len(a.Rules) > 1 && t.Next(2) == 0 {
+				// ... and do not belong to the same rules any more.
+				first := a.Rules[0].Name
+				for i := 0; i+1 < len(a.Rules); i++ {
+					a.Rules[i].Name = a.Rules[i+1].Name
+				}
+				a.Rules[len(a.Rules)-1].Name = first
+				ops = append(ops, "rule names rotated on device")
+			}
 		case 12: // unused objects on device
 			a.useAddr("10.99.0.0/24")
 			a.Groups = append(a.Groups, PGroup{"unused-group", []string{a.useAddr("10.99.1.0/24")}})
@@ -423,6 +432,28 @@ func DerivePanDevice(t *tape.Tape, b *PVsys) (*PVsys, []string) {
 					r.Action = "allow"
 				}
 				ops = append(ops, "action of rule "+r.Name+" differs")
+			}
+		case 15: // a rule of the target is missing on the device while its name and
+			// name-1 are carried by other rules there (left by earlier approves)
+			if len(a.Rules) >= 3 {
+				i := t.Next(len(a.Rules))
+				name := a.Rules[i].Name
+				a.Rules = append(a.Rules[:i:i], a.Rules[i+1:]...)
+				taken := func(n string) bool {
+					for _, x := range a.Rules {
+						if x.Name == n {
+							return true
+						}
+					}
+					return false
+				}
+				j := t.Next(len(a.Rules))
+				k := (j + 1 + t.Next(len(a.Rules)-1)) % len(a.Rules)
+				if !taken(name) && !taken(name+"-1") {
+					a.Rules[j].Name = name
+					a.Rules[k].Name = name + "-1"
+					ops = append(ops, "rule "+name+" missing on device, its name and "+name+"-1 carried by other rules")
+				}
 			}
 		case 14: // members of a service-group differ
 			if len(a.SGroups) > 0 {
